@@ -236,6 +236,8 @@ struct Norm<'a> {
     selfty: Option<String>,
     skip_sort: bool,
     subst: Option<(String, String)>,
+    before: Vec<String>,
+    pub before_hits: Vec<usize>,
 }
 
 impl<'a> Norm<'a> {
@@ -619,6 +621,17 @@ impl<'a> VisitMut for Norm<'a> {
                     continue;
                 }
             }
+            // ghost-text anchors: `//@ before <statement prefix>` (proof blocks only; checked by the template scan)
+            if !self.before.is_empty() {
+                let t: String = s.to_token_stream().to_string().chars().filter(|c| !c.is_whitespace()).collect();
+                for (k, pfx) in self.before.clone().iter().enumerate() {
+                    if t.starts_with(pfx.as_str()) {
+                        let m = ident(&format!("__zx_before_{}", k));
+                        new.push(parse_quote!(#m!();));
+                        self.before_hits[k] += 1;
+                    }
+                }
+            }
             // N12: `let mut v: Vec<_> = SET.into_iter().map(|c| Tag(c)).collect(); v.sort_by_key(|t| t.0);`
             //      ==> `let mut v: Vec<_> = v_sorted_tags(SET);`   (iterator adapters are outside Verus; trusted stub T7)
             if let Stmt::Local(l) = &s {
@@ -857,14 +870,34 @@ impl<'a> VisitMut for Norm<'a> {
 }
 
 /// Returns the number of loops found (pre-order numbering).
-pub fn normalise(block: &mut syn::Block, opts: &BTreeMap<String, String>, stats: &mut Stats, desc: &str) -> usize {
+pub fn normalise(block: &mut syn::Block, opts: &BTreeMap<String, String>, stats: &mut Stats, desc: &str, before: &[String]) -> (usize, Vec<usize>) {
     let deref_idents = opts.get("n3").map(|s| s.split(',').map(|x| x.to_string()).collect()).unwrap_or_default();
-    let mut n = Norm { stats, desc, loops: 0, tmp: 0, closure_args: 0, deref_idents, keep_async: false, yieldctx: opts.get("yieldctx").cloned(), opt_map: opts.contains_key("optmap"), dropnote: opts.get("dropnote").cloned(), selfty: opts.get("selfty").cloned(), skip_sort: false, subst: opts.get("subst").and_then(|v| v.split_once(':').map(|(a, b)| (a.to_string(), b.replace('~', "::")))) };
+    let mut n = Norm { stats, desc, loops: 0, tmp: 0, closure_args: 0, deref_idents, keep_async: false, yieldctx: opts.get("yieldctx").cloned(), opt_map: opts.contains_key("optmap"), dropnote: opts.get("dropnote").cloned(), selfty: opts.get("selfty").cloned(), skip_sort: false, before: before.to_vec(), before_hits: vec![0; before.len()], subst: opts.get("subst").and_then(|v| v.split_once(':').map(|(a, b)| (a.to_string(), b.replace('~', "::")))) };
     n.visit_block_mut(block);
-    n.loops
+    (n.loops, n.before_hits.clone())
 }
 
 /// N8: take the token body of `try_stream! { … }` / `stream! { … }` inside a function.
+/// Keep the statements of `block` from the first one whose token text starts with `prefix` (whitespace ignored).
+/// Used for U7: the manifest construction in front of the upload exchange is outside reach and is not extracted.
+pub fn from_stmt(block: &mut syn::Block, prefix: &str, desc: &str, stats: &mut Stats) {
+    let want: String = prefix.chars().filter(|c| !c.is_whitespace()).collect();
+    let pos = block.stmts.iter().position(|st| {
+        let t: String = st.to_token_stream().to_string().chars().filter(|c| !c.is_whitespace()).collect();
+        t.starts_with(&want)
+    });
+    match pos {
+        Some(p) => {
+            let dropped = p;
+            block.stmts.drain(0..p);
+            for _ in 0..dropped {
+                stats.bump("U7.statements_before_anchor_not_extracted");
+            }
+        }
+        None => die("lost-anchor", &format!("statement starting with `{}` not found in {}", prefix, desc)),
+    }
+}
+
 pub fn extract_macro_block(block: &syn::Block, mac: &str, desc: &str, stats: &mut Stats) -> syn::Block {
     struct Find<'a> {
         mac: &'a str,
